@@ -166,6 +166,16 @@ def make_builtins(ex):
         else:
             yield st, AList(sp.n, sp.elem, sp.keep, sp.span)
 
+    @reg("tuple")
+    def _tuple(ex, st, args, kwargs, node):
+        if not args:
+            yield st, TupleV(())
+            return
+        sp = space_of(ex, st, args[0])
+        if sp.concrete is None:
+            raise Unsupported("tuple of a symbolic sequence")
+        yield st, TupleV(sp.concrete)
+
     @reg("dict")
     def _dict(ex, st, args, kwargs, node):
         if args:
@@ -685,6 +695,9 @@ def method_of(ex, obj, p, name):
             def f(ex, st, args, kwargs, node):
                 pre = args[0]
                 parts = vals.str_parts(p)
+                if isinstance(pre, tuple) and isinstance(p, str) and all(isinstance(q, str) for q in pre):
+                    yield st, p.startswith(tuple(pre))
+                    return
                 if isinstance(pre, str) and parts and isinstance(parts[0], str) and len(parts[0]) >= len(pre):
                     yield st, parts[0].startswith(pre)
                     return
